@@ -12,6 +12,6 @@ EXTENDS Framing, Json, CSV, IOUtils
 EmitBehaviour ==
     /\ (Len(hist') = 1 /\ hist'[1].n = 1) =>
            CSVWrite("%1$s", <<ToJson([sid |-> sid, cells |-> Shapes[sid]])>>, IOEnv.QXV_GEN)
-    /\ (pos' = stream.n) =>
+    /\ (pos' = Stream.n) =>
            CSVWrite("%1$s", <<ToJson([sid |-> sid, steps |-> hist'])>>, IOEnv.QXV_GEN)
 =============================================================================
